@@ -438,11 +438,11 @@ func locDesc(tr *ce.Tree, loc []chainhash.Hash) string {
 
 var recHdr = ev.New("C17", "headers-first",
 	"trees of 5-40 blocks with up to 2 invalid blocks; histories where every node's header is delivered through ProcessBlockHeader (in tree order, possibly long before its block, possibly without it) "+
-		"interleaved with block deliveries in generated order, duplicates, orphan headers, headers below a block that is known to be invalid; oracle: best header = most-work chain of accepted headers (first seen wins ties), "+
+		"interleaved with block deliveries in generated order (a third of them blocks-first: the block arrives before its own header, which may follow later), duplicates, orphan headers, headers below a block that is known to be invalid; oracle: best header = most-work chain of accepted headers (first seen wins ties), "+
 		"HeaderHashByHeight/HeaderHeightByHash/IsValidHeader/BestChainHeaderForkHeight/LatestBlockLocatorByHeader = naive walk of that chain; headers extending a known-invalid block are refused; "+
 		"headers-then-blocks and blocks-only deliveries of the same tree end on equal-work tips (identical when there is no tie); "+
 		"non-trivial = best header chain ahead of or diverging from the block chain at some step, or a refused header; distinct by history hash",
-	"header-ahead", "header-diverged", "refused-invalid-parent", "refused-orphan", "plain")
+	"header-ahead", "header-diverged", "refused-invalid-parent", "refused-orphan", "header-after-block", "plain")
 
 // hdrModel tracks the best-header view.
 type hdrModel struct {
@@ -540,7 +540,7 @@ func TestHeadersFirst(t *testing.T) {
 					n = nodes[rapid.IntRange(0, len(nodes)-1).Draw(t, "hdrNode")]
 				} else {
 					for _, c := range nodes {
-						if !headerDone[c] && (hm.accepted[c.Parent]) {
+						if !headerDone[c] && (hm.accepted[c.Parent] || sel.InIndex(c.Parent)) {
 							n = c
 							break
 						}
@@ -551,9 +551,15 @@ func TestHeadersFirst(t *testing.T) {
 				}
 				headerDone[n] = true
 				hist = append(hist, fmt.Sprintf("header(node%d)", n.Idx))
+				inIndexBefore := map[*ce.Node]bool{n: sel.InIndex(n), n.Parent: sel.InIndex(n.Parent)}
+				parentMurky := sel.Murky[n.Parent]
 				_, err := env.DeliverHeader(n)
 				sel.DeliverHeader(n)
-				parentKnown := hm.accepted[n.Parent]
+				// the parent is known through its header or through its block (blocks-first delivery)
+				parentKnown := hm.accepted[n.Parent] || inIndexBefore[n.Parent]
+				if !hm.accepted[n] && inIndexBefore[n] {
+					classes["header-after-block"] = true
+				}
 				switch {
 				case hm.accepted[n] && !knownInvalidOnPath(n, knownInvalid):
 					if err != nil {
@@ -568,10 +574,23 @@ func TestHeadersFirst(t *testing.T) {
 					// a descendant of a known-invalid block: the property only
 					// demands refusal of headers that extend the invalid block
 					// itself; btcd marks descendants lazily (left open)
+				case knownInvalid[n]:
+					// the block arrived before its header and failed validation: the property speaks
+					// about headers extending such a block; for the block's own header the model
+					// follows what the node did
+					if err == nil {
+						hm.accept(n)
+					}
+				case !parentKnown && parentMurky:
+					// the parent's block was delivered below an invalid block: whether the node
+					// kept it is open (chain-selection model), so is the fate of this header
+					if err == nil && !n.HeaderInvalid() {
+						hm.accept(n)
+					}
 				case !parentKnown:
 					classes["refused-orphan"] = true
 					if err == nil {
-						t.Fatalf("orphan header node%d accepted\nhistory: %s", n.Idx, strings.Join(hist, " "))
+						t.Fatalf("orphan header node%d accepted\nhistory: %s\ntree: %s", n.Idx, strings.Join(hist, " "), tr.Describe())
 					}
 				case knownInvalid[n.Parent]:
 					classes["refused-invalid-parent"] = true
@@ -597,9 +616,15 @@ func TestHeadersFirst(t *testing.T) {
 			} else {
 				// deliver a block whose header has been accepted (headers-first
 				// discipline keeps the best-header view well defined)
+				// ... or, in a third of the steps, a block that arrives before its header
+				// (its parent being known through a header or a block)
+				blocksFirst := rapid.IntRange(0, 2).Draw(t, "blocksFirst") == 0
 				var cands []*ce.Node
 				for _, c := range nodes {
-					if hm.accepted[c] && !blockDone[c] {
+					if blockDone[c] {
+						continue
+					}
+					if hm.accepted[c] || blocksFirst && (hm.accepted[c.Parent] || sel.InIndex(c.Parent)) {
 						cands = append(cands, c)
 					}
 				}
@@ -637,7 +662,7 @@ func TestHeadersFirst(t *testing.T) {
 			check()
 		}
 		cl := "plain"
-		for _, k := range []string{"refused-invalid-parent", "header-diverged", "header-ahead", "refused-orphan"} {
+		for _, k := range []string{"refused-invalid-parent", "header-diverged", "header-after-block", "header-ahead", "refused-orphan"} {
 			if classes[k] {
 				if cl == "plain" {
 					cl = k
